@@ -372,6 +372,18 @@ func generate(thorough bool, emit func(kase)) {
 			hdr2 := []byte{22, 3, 3, byte(l >> 8), byte(l)}
 			emit(kase{Family: "backend-declared-length-hs", Desc: fmt.Sprintf("%s %d", f.name, l), Keys: true, First: f.rec, Ops: []op{{Dir: 'b', Data: append(hdr2, make([]byte, 39000)...)}, {Dir: 'b', Data: make([]byte, 39000)}}})
 		}
+		// an application-data record and the header of the NEXT record in one Write (pass-through with bytes still buffered), the
+		// header announcing a length at the top of the 16-bit range (header + length wraps around in 16 bits for 0xfffb..0xffff)
+		for _, l := range []int{16641, 0xfffa, 0xfffb, 0xfffc, 0xffff} {
+			app := tlsref.Record(23, 0x0303, make([]byte, 20))
+			for _, ct := range []byte{22, 23} {
+				hdr := []byte{ct, 3, 3, byte(l >> 8), byte(l)}
+				emit(kase{Family: "backend-appdata-then-declared-length", Desc: fmt.Sprintf("%s type%d %d", f.name, ct, l), Keys: true, First: f.rec,
+					Ops: []op{{Dir: 'b', Data: append(slices.Clone(app), hdr...)}, {Dir: 'b', Data: make([]byte, 40000)}, {Dir: 'b', Data: make([]byte, 40000)}}})
+				emit(kase{Family: "backend-appdata-then-declared-length", Desc: fmt.Sprintf("%s type%d %d split", f.name, ct, l), Keys: true, First: f.rec,
+					Ops: []op{{Dir: 'b', Data: append(slices.Clone(app), hdr[:3]...)}, {Dir: 'b', Data: hdr[3:]}, {Dir: 'b', Data: make([]byte, 70000)}}})
+			}
+		}
 		// a ServerHello that announces a long body and continues over many full handshake records: what the Conn keeps of a
 		// fragmented ServerHello is bounded by the largest handshake message, not by what the backend announces
 		for _, l := range []int{65536, 65537, 1 << 20, 0xffffff} {
